@@ -169,6 +169,8 @@ package ast_java
 //@ ensures currentType != "CreatorClass" ==> currentMethod == *method && len(methodQueue) == old(len(methodQueue)) + 1 && Extends(methodQueue, old(methodQueue), 1) && methodQueue[len(methodQueue) - 1] == *method
 //@ ensures currentType != "CreatorClass" && (*method).Name != "" ==> methodMap[MKey(currentPkg, currentClz, (*method).Name, (*method).Position.StartLine)] == *method
 //@ ensures currentType != "CreatorClass" ==> creatorMethodMap == old(creatorMethodMap)
+//@ ensures forall k string :: {k in methodMap} {methodMap[k]} currentType != "CreatorClass" && (*method).Name != "" && k != MKey(currentPkg, currentClz, (*method).Name, (*method).Position.StartLine) ==>
+//@    ((k in methodMap) <==> old(k in methodMap)) && methodMap[k] == old(methodMap[k])
 //@ ensures currentType == "CreatorClass" ==> currentMethod == old(currentMethod) && methodQueue == old(methodQueue) && methodMap == old(methodMap)
 
 // the end of a method or constructor leaves an empty current method (nothing of it leaks into the next one)
